@@ -342,7 +342,8 @@ def run_sched_case(case, twin, repo):
                             # points_to_evaluate list and the restrict_configurations list (finding F-C11-1: a
                             # searcher must not keep and shrink the caller's list)
                             q = dict(pp, _built=params["_built"]) if pp.get("share_opts") else dict(pp)
-                            o = make_scheduler(pk, space, q, pert.randrange(2 ** 31))
+                            sp = build_space(pp["alt_space"]) if pp.get("alt_space") else space
+                            o = make_scheduler(pk, sp, q, pert.randrange(2 ** 31))
                             others.append([o, 1000])
                             # lazily configured parts (bracket distribution, searcher) are set up by the first
                             # suggest: the unrelated instance is USED before the scheduler under test
